@@ -25,9 +25,9 @@ NOTE = ["block-level theorems: C08.block_eq_inlined, wellScoped_total, on_off; `
 PARTIAL = ["sympy cse/simplify are parameters; their output is checked per instance, not verified"]
 
 
-def share_definition(rng):
+def share_definition(rng, transcend=False):
     d = gen.gen_definition(rng, n_state=rng.choice([2, 3, 4]), n_control=rng.choice([0, 1, 2]), n_calib=rng.choice([0, 1]),
-                           n_sensors=rng.choice([1, 2]), depth=3, share=True)
+                           n_sensors=rng.choice([1, 2]), depth=3, share=True, transcend=transcend)
     # force cross-output sharing: add one common nested term to every state update and every reading
     syms = d.state + d.control + d.calibration
     a, b = rng.choice(syms), rng.choice(syms)
@@ -96,7 +96,7 @@ def run(ctx):
     ndefs = 5 if ctx.quick else 50
     jobs, metas = [], []
     for i in range(ndefs):
-        d = share_definition(ctx.rng)
+        d = share_definition(ctx.rng, transcend=(i % 5 == 4))
         d._kind = "ekf"
         rational = eh.is_rational(d)
         process, sensor = eh.make_noises(ctx.rng, d)
@@ -139,7 +139,7 @@ def run(ctx):
                 ctx.case(case, True); ctx.traces += 1
                 for x, y in zip(a, b):
                     sc = 1.0 + float(np.max(np.abs(y))) if y.size else 1.0
-                    if x.shape != y.shape or (x.size and float(np.max(np.abs(x - y))) > 1e-9 * sc):
+                    if x.shape != y.shape or (x.size and float(np.max(np.abs(x - y))) > core.DEFAULT_TOL * sc):
                         ctx.fail("cse-on-off:python", f"a Python filter output differs with CSE on vs off: {x.tolist()} vs {y.tolist()}", case)
                         break
         for cse in (True, False):
@@ -172,7 +172,9 @@ def run(ctx):
             cpp_out[(i, cse)] = cppgen.run_exe(exe, lines)
         except Exception as e:
             ctx.fail("generated-cpp-crashes", repr(e)[:300], {"def": d.describe(), "cse": cse})
+    transcend_units = {i for (i, cse, d, pts) in metas if d.transcend}
     for (i, cse), outs in cpp_out.items():
+        core.set_tolerance(i in transcend_units)
         if cse and (i, False) in cpp_out:
             for a, b in zip(outs, cpp_out[(i, False)]):
                 ctx.traces += 1
